@@ -70,6 +70,9 @@ Orphaned(I, R) == {x.l : x \in {y \in I : \E i \in R : i.kind = "orphan" /\ i.o 
 
 KeysClosed(upd) == \A q \in upd : EntryOf(q[1]) # NoEntry =>
                       \A k \in KeysOfEntry(EntryOf(q[1])) : <<k, "key">> \in upd
+\* a single intent is a piece of valid configuration: it does not populate two cases of one choice
+OneCasePerChoice(upd) == \A q, r \in upd : (ChoiceOf(q[1]) # NoChoice /\ ChoiceOf(q[1]) = ChoiceOf(r[1]))
+                                              => CaseOf(q[1]) = CaseOf(r[1])
 DistinctOwners(R) == \A a, b \in R : a.o = b.o => a = b
 \* priorities stay pairwise distinct between owners in the resulting store
 PrioOK(I, R) == PrioDistinct(NewStore(I, R))
